@@ -1,3 +1,77 @@
-From Piko Require Import Gossip.World.
-Example C03_placeholder : True. Proof. exact I. Qed.
-Print Assumptions C03_placeholder.
+(* C03 - Gossip converges: every live node ends up with every live node's exact state.
+   Only statements here; proofs in GossipP/ConvergeP.v, ApplyValid.v, CodecP.v.
+   Model: Gossip/Apply.v, Codec.v, World.v. *)
+From Coq Require Import List String NArith ZArith Bool Lia.
+From Piko Require Import Base.Maps Base.Strs Gossip.Types Gossip.Local Gossip.Apply Gossip.Codec.
+From Piko Require Import GossipP.SortP GossipP.LocalP GossipP.Valid GossipP.ApplyValid GossipP.CodecP GossipP.ConvergeP.
+Import ListNotations.
+Open Scope string_scope. Open Scope list_scope. Open Scope N_scope.
+
+(* The measure: deficit L v = number of distinct versions the owner ever wrote (its log L) above the version v an
+   observer has reached. Counting LOG versions (not current entries) makes it strictly decrease even when the entry
+   received is stale, or relayed by a third party, or a compaction marker. *)
+
+(* "after earlier message loss ... packets can carry only part of the outstanding difference": applying ANY prefix of
+   a delta cut from a valid source never increases the deficit (loss, duplication, reordering, truncation included) *)
+Theorem C03_no_regress :
+  forall O S L d now nid B es, OwnInv O L -> Valid S O L -> Valid B O L -> d <= n_ver B ->
+  is_prefix_of es (sort_by_ver (filter (fun e => d <? e_ver e) (values (n_ents S)))) ->
+  (deficit L (n_ver (fst (apply_entries now nid B es))) <= deficit L (n_ver B))%nat.
+Proof.
+  intros O S L d now nid B es HO HS HB Hd Hp. apply deficit_mono.
+  exact (proj2 (apply_prefix_valid O S L d now nid HO HS B es HB Hd Hp)).
+Qed.
+
+(* one exchange makes progress: a non-empty prefix of the delta cut for exactly the observer's version strictly
+   decreases the deficit *)
+Theorem C03_progress :
+  forall O S B L now nid e es, OwnInv O L -> Valid S O L -> Valid B O L ->
+  is_prefix_of (e :: es) (sort_by_ver (filter (fun x => n_ver B <? e_ver x) (values (n_ents S)))) ->
+  (deficit L (n_ver (fst (apply_entries now nid B (e :: es)))) < deficit L (n_ver B))%nat.
+Proof. intros O S B L now nid e es HO HS HB Hp. exact (exchange_progress O S B L now nid HO HS e es Hp). Qed.
+
+(* ... and the prefix IS non-empty whenever the sender holds anything newer and that entry fits the packet together
+   with the headers (hypothesis "fits"; without it: C03_refuted_oversize / finding G1) *)
+Theorem C03_nonempty_when_fits :
+  forall id addr de e es dl max, de_ents de = e :: es ->
+  blen (delta_prefix id addr) + blen (enc_delta_header (de_id de) (de_addr de) (N.of_nat (List.length (de_ents de))))
+    + blen (enc_entry e) <= max ->
+  exists p ps t, cut_delta id addr (de :: dl) max = Some (p :: ps) /\ dp_id p = de_id de /\ dp_ents p = e :: t.
+Proof. exact encode_delta_at_least_one. Qed.
+
+(* "every live node's view ... becomes identical to that node's own state - same keys, values, deletion markers and
+   version": zero deficit = caught up = identical entries *)
+Theorem C03_stuck_is_converged :
+  forall O V L, OwnInv O L -> Valid V O L -> deficit L (n_ver V) = 0%nat ->
+  n_ver V = n_ver O /\ forall k, lookup k (n_ents V) = lookup k (n_ents O).
+Proof. exact stuck_is_converged. Qed.
+
+(* "within a bounded number of exchanges": a quantity that strictly decreases at every step can do so at most
+   (initial value) times - with C03_progress the number of progressing exchanges of a pair is bounded by its deficit,
+   hence the number of all-pairs rounds by the total deficit *)
+Theorem C03_bounded :
+  forall (f : nat -> nat) (k : nat), (forall i, (i < k)%nat -> (f (S i) < f i)%nat) -> (k <= f 0%nat)%nat.
+Proof.
+  intros f k H. assert (Hk : forall i, (i <= k)%nat -> (f i + i <= f 0%nat)%nat).
+  { induction i as [|i IH]; intros Hi; [lia|]. specialize (H i ltac:(lia)). specialize (IH ltac:(lia)). lia. }
+  specialize (Hk k (le_n k)). lia.
+Qed.
+
+(* the hypothesis "fits" is necessary (finding G1): an entry that does not fit is never sent, nor anything after it *)
+Example C03_refuted_oversize :
+  let big := mk_entry "big" (String.concat "" (repeat "x" 200)) 2 false false in
+  let dl := [{| de_id := "b"; de_addr := "10.0.0.2:7000"; de_ents := [big; mk_entry "k3" "3" 3 false false] |}] in
+  option_map (map (fun p => List.length (dp_ents p))) (cut_delta "b" "10.0.0.2:7000" dl 150) = Some [0%nat].
+Proof. vm_compute. reflexivity. Qed.
+
+(* PARTIAL (named): the cluster-level statement (C03_bounded over worlds: from any reachable state in which the
+   live nodes know each other, Psi(W) all-pairs rounds of loss-free exchanges end converged; C03_discovery) composes
+   these lemmas with the world invariant of C02, which is in progress; it is exercised on every run by the
+   convergence campaigns on the real nodes (monitor: deficit never increases, every round strictly decreases it). *)
+
+Print Assumptions C03_no_regress.
+Print Assumptions C03_progress.
+Print Assumptions C03_nonempty_when_fits.
+Print Assumptions C03_stuck_is_converged.
+Print Assumptions C03_bounded.
+Print Assumptions C03_refuted_oversize.
